@@ -45,7 +45,7 @@ func runC01(c *ShardCtx) {
 		}
 	}
 	// family 2: case-insensitive / Unicode terminals
-	leaves2 := []*peg.Expr{peg.LitI("A"), peg.LitI("aB"), peg.Cls(false, true, "a-b"), peg.Cls(true, true, "A"), peg.Cls(false, false, `\pL`), peg.Cls(false, true, `\p{Lu}`), peg.Cls(false, false, "a-é"), peg.Cls(true, false, "B-ÿ"), peg.Cls(false, true, "!-_"), peg.Lit("é"), peg.Cls(false, true, "é"), peg.Lit("a")}
+	leaves2 := []*peg.Expr{peg.LitI("A"), peg.LitI("aB"), peg.Cls(false, true, "a-b"), peg.Cls(true, true, "A"), peg.Cls(false, false, `\pL`), peg.Cls(false, true, `\p{Lu}`), peg.Cls(false, false, "a-é"), peg.Cls(true, false, "B-ÿ"), peg.Cls(false, true, "!-_"), peg.Lit("é"), peg.Cls(false, true, "é"), peg.Lit("a"), peg.Cls(false, true, "Z", "b"), peg.Cls(true, true, "b", "Z", "É")}
 	en2 := peg.NewEnumerator(peg.Alphabet{Leaves: leaves2, Unary: allUnary, Seq: true, Choice: true, MaxArity: 2})
 	n2 := 3
 	if c.Thorough() {
